@@ -629,8 +629,352 @@ def run_flatpack(ctx, nr, nc):
         return out
 
     ctx.prove(name, (KEY0,), ens, targets=[G.__call__, G._extract_block, G._crop_nonzero, G._select_col_interlocks, G._select_row_interlocks, G._select_sides,
-                                           G._fill_grid_columns, G._fill_grid_rows], merge_over=64)
+                                           G._fill_grid_columns, G._fill_grid_rows], merge_over=64, workers=4)
     _not_constant(ctx, name, gen, lambda s: s.blocks, [G.__call__], keys=8)
+
+
+def _exact_cover(blocks, R, C):
+    """native decision procedure for 'the blocks admit a complete solution': every block placed once (any of the 4 rotations, top-left corner of its
+    3x3 window at a position of the action space [0,R-3]x[0,C-3]) so that every grid cell is covered exactly once.  Returns the placement or None."""
+    blocks = [np.asarray(b) != 0 for b in blocks]
+    N = len(blocks)
+    if sum(int(b.sum()) for b in blocks) != R * C:
+        return None
+    opts = []
+    for b in blocks:
+        o = {}
+        for r in range(4):
+            m = np.rot90(b, r)
+            for oy in range(R - 2):
+                for ox in range(C - 2):
+                    o.setdefault(frozenset((oy + a) * C + ox + c for a in range(3) for c in range(3) if m[a, c]), (r, oy, ox))
+        opts.append(o)
+
+    def rec(used, covered):
+        if len(used) == N:
+            return []
+        cell = next(c for c in range(R * C) if c not in covered)  # the first uncovered cell has to be covered by some unused block
+        for i in range(N):
+            if i in used:
+                continue
+            for cells, how in opts[i].items():
+                if cell in cells and not (covered & cells):
+                    sub = rec(used | {i}, covered | cells)
+                    if sub is not None:
+                        return [(i,) + how] + sub
+        return None
+
+    return rec(frozenset(), frozenset())
+
+
+def run_flatpack_bounded(ctx, sizes, nkeys):
+    from jumanji.environments.packing.flat_pack.generator import RandomFlatPackGenerator as G
+    for (nr, nc) in sizes:
+        R, C = 2 * nr + 1, 2 * nc + 1
+        blocks = np.asarray(jax.jit(jax.vmap(G(nr, nc)))(jax.vmap(jax.random.PRNGKey)(jnp.arange(nkeys))).blocks)
+        bad = [k for k in range(nkeys) if _exact_cover(blocks[k], R, C) is None]
+        wit = {"key": f"PRNGKey({bad[0]})", "blocks": blocks[bad[0]].tolist(), "unsolvable_keys": bad[:20],
+               "how": "exhaustive exact-cover search over all rotations and all positions of the action space finds no complete placement"} if bad else None
+        ctx.bounded_check(f"FlatPack.RandomFlatPackGenerator[{nr}x{nc}]/C10.block_set_admits_a_complete_solution", nkeys, len(bad),
+                          f"exhaustive exact-cover search on PRNGKey(0..{nkeys - 1}) at {nr}x{nc} blocks", wit)
+
+
+def _sudoku_conflicts(boards):
+    """boards: (n,9,9) ints, 0 = empty.  Returns indices of boards with a value outside 0..9 or a repeated digit in a row, column or 3x3 box."""
+    b = np.asarray(boards)
+    bad = np.zeros(b.shape[0], bool) | np.any((b < 0) | (b > 9), axis=(1, 2))
+    units = [b[:, r, :] for r in range(9)] + [b[:, :, c] for c in range(9)] + [b[:, 3 * i:3 * i + 3, 3 * j:3 * j + 3].reshape(-1, 9) for i in range(3) for j in range(3)]
+    for u in units:
+        for d in range(1, 10):
+            bad |= (u == d).sum(axis=1) > 1
+    return np.nonzero(bad)[0]
+
+
+def _sudoku_solve(board):
+    """bitmask DFS (most constrained cell first); returns a completed 9x9 list or None.  The result is re-checked independently by the caller."""
+    rows, cols, boxes, g, empty = [0] * 9, [0] * 9, [0] * 9, [list(map(int, r)) for r in board], []
+    for r in range(9):
+        for c in range(9):
+            v = g[r][c]
+            if v:
+                b = 1 << v
+                if rows[r] & b or cols[c] & b or boxes[r // 3 * 3 + c // 3] & b:
+                    return None
+                rows[r] |= b
+                cols[c] |= b
+                boxes[r // 3 * 3 + c // 3] |= b
+            else:
+                empty.append((r, c))
+
+    def rec():
+        if not empty:
+            return True
+        best, bi, bm = None, -1, 0
+        for i, (r, c) in enumerate(empty):
+            m = 0x3FE & ~(rows[r] | cols[c] | boxes[r // 3 * 3 + c // 3])
+            n = bin(m).count("1")
+            if n == 0:
+                return False
+            if best is None or n < best:
+                best, bi, bm = n, i, m
+                if n == 1:
+                    break
+        r, c = empty.pop(bi)
+        bx = r // 3 * 3 + c // 3
+        m = bm
+        while m:
+            b = m & -m
+            m ^= b
+            rows[r] |= b
+            cols[c] |= b
+            boxes[bx] |= b
+            g[r][c] = b.bit_length() - 1
+            if rec():
+                return True
+            rows[r] ^= b
+            cols[c] ^= b
+            boxes[bx] ^= b
+        g[r][c] = 0
+        empty.insert(bi, (r, c))
+        return False
+
+    return g if rec() else None
+
+
+def run_sudoku(ctx):
+    import os
+    from jumanji.environments.logic.sudoku import generator as SG, constants as SC, data
+    from jumanji.environments import Sudoku
+    backend = "exhaustive enumeration of the finite database"
+    d = os.path.dirname(data.__file__)
+    for fn in sorted(f for f in os.listdir(d) if f.endswith(".npy")):
+        db = np.load(os.path.join(d, fn))
+        bad = _sudoku_conflicts(db)
+        ok = db.ndim == 3 and db.shape[1:] == (9, 9) and len(bad) == 0 and bool(np.all((db == 0).sum(axis=(1, 2)) >= 1))
+        sols = [_sudoku_solve(b) for b in db]
+        unsolved = [i for i, sl in enumerate(sols) if sl is None]
+        solved = np.asarray([sl for sl in sols if sl is not None])
+        puzzles = np.asarray([db[i] for i, sl in enumerate(sols) if sl is not None])
+        ok_sol = not unsolved and len(_sudoku_conflicts(solved)) == 0 and bool(np.all(solved >= 1)) and bool(np.all((puzzles == 0) | (puzzles == solved)))
+        ctx.structural(f"Sudoku.database[{fn}]/C10.every_puzzle_has_a_solution", bool(ok_sol), backend + " (search; each completed board re-checked: full, conflict-free, extends the puzzle)",
+                       detail={"puzzles": int(db.shape[0]), "unsolvable": unsolved[:5]}, witness=None if ok_sol else {"file": fn, "puzzle_index": unsolved[:5]},
+                       targets=[SG.DatabaseGenerator.__init__])
+        ctx.structural(f"Sudoku.database[{fn}]/C10.every_puzzle_conflict_free_digits_in_range_some_cell_empty", ok, backend,
+                       detail={"puzzles": int(db.shape[0]), "conflicting": bad[:5].tolist()}, witness=None if ok else {"file": fn, "puzzle_index": bad[:5].tolist()},
+                       targets=[SG.DatabaseGenerator.__init__])
+    env = Sudoku()
+    gen = getattr(env, "generator", None) or env._generator
+    db = np.asarray(gen._boards)
+    ctx.structural("Sudoku.default_generator/C10.default_database_conflict_free", len(_sudoku_conflicts(db)) == 0, backend, detail={"puzzles": int(db.shape[0])},
+                   targets=[Sudoku.__init__])
+    init, solved = np.asarray(SC.INITIAL_BOARD_SAMPLE), np.asarray(SC.SOLVED_BOARD_SAMPLE)
+    st = SG.DummyGenerator()(KEY0)
+    ok = len(_sudoku_conflicts(init[None])) == 0 and len(_sudoku_conflicts(solved[None])) == 0 and bool(np.all(solved >= 1)) \
+        and bool(np.all((init == 0) | (init == solved))) and np.array_equal(np.asarray(st.board), init - 1)
+    ctx.structural("Sudoku.DummyGenerator/C10.puzzle_conflict_free_and_extended_by_the_shipped_solution", ok, "native evaluation (constant instance)", targets=[SG.DummyGenerator.__init__])
+    # DatabaseGenerator over a SYMBOLIC database: the generated board is one of the database's puzzles (shifted by one), for every key
+    nB = 3
+
+    def ens(key, boards):
+        st = SG.DatabaseGenerator(boards)(key)
+        hit = jnp.asarray(False)
+        for i in range(nB):
+            hit = hit | jnp.all(st.board == boards[i] - 1)
+        return {"C10.generated_board_is_a_database_puzzle_unchanged": hit, "canary.always_the_first_puzzle": jnp.all(st.board == boards[0] - 1)}
+
+    ctx.prove(f"Sudoku.DatabaseGenerator[symbolic database of {nB}]", (KEY0, jnp.zeros((nB, 9, 9), jnp.int32)), ens,
+              lambda k, b: {"digits": (b >= 0) & (b <= 9)}, targets=[SG.DatabaseGenerator.__call__])
+    _not_constant(ctx, "Sudoku.DatabaseGenerator[default]", gen, lambda s: s.board, [SG.DatabaseGenerator.__call__], keys=8)
+
+
+def _boxes_disjoint_inside(x1, x2, y1, y2, z1, z2, cx, cy, cz):
+    n = len(x1)
+    inside = all(0 <= x1[i] < x2[i] <= cx and 0 <= y1[i] < y2[i] <= cy and 0 <= z1[i] < z2[i] <= cz for i in range(n))
+    disjoint = all(x2[i] <= x1[j] or x2[j] <= x1[i] or y2[i] <= y1[j] or y2[j] <= y1[i] or z2[i] <= z1[j] or z2[j] <= z1[i] for i in range(n) for j in range(i + 1, n))
+    vol = sum(int(x2[i] - x1[i]) * int(y2[i] - y1[i]) * int(z2[i] - z1[i]) for i in range(n))
+    return inside, disjoint, vol
+
+
+def _binpack_instance_ok(gen, key):
+    """items of generator(key) are those of generate_solution(key); the solution places them inside the container, pairwise disjoint, filling its volume"""
+    st, sol = gen(key), gen.generate_solution(key)
+    m = np.asarray(sol.items_mask)
+    same = all(np.array_equal(np.asarray(a), np.asarray(b)) for a, b in zip(jax.tree_util.tree_leaves((st.items, st.items_mask, st.container)),
+                                                                            jax.tree_util.tree_leaves((sol.items, sol.items_mask, sol.container))))
+    fresh = not np.any(np.asarray(st.items_placed)) and np.array_equal(np.asarray(st.ems_mask), np.arange(len(st.ems_mask)) == 0) and np.array_equal(np.asarray(sol.items_placed), m)
+    it, loc, c = sol.items, sol.items_location, sol.container
+    x1, y1, z1 = (np.asarray(v)[m].astype(np.int64) for v in (loc.x, loc.y, loc.z))
+    xl, yl, zl = (np.asarray(v)[m].astype(np.int64) for v in (it.x_len, it.y_len, it.z_len))
+    cx, cy, cz = int(c.x2) - int(c.x1), int(c.y2) - int(c.y1), int(c.z2) - int(c.z1)
+    inside, disjoint, vol = _boxes_disjoint_inside(x1, x1 + xl, y1, y1 + yl, z1, z1 + zl, cx, cy, cz)
+    ems0 = all(int(np.asarray(getattr(st.ems, f))[0]) == int(getattr(c, f)) for f in ("x1", "x2", "y1", "y2", "z1", "z2"))
+    return {"same_items_as_solution": bool(same), "nothing_placed_one_ems_the_container": bool(fresh and ems0), "solution_items_inside_container": bool(inside),
+            "solution_items_pairwise_disjoint": bool(disjoint), "solution_fills_the_container_volume": vol == cx * cy * cz, "at_least_one_item": int(m.sum()) >= 1}
+
+
+def run_toys(ctx):
+    """finite / constant generators: native check of their advertised invariants"""
+    nat = "native evaluation (constant instance)"
+    # --- FlatPack toys
+    from jumanji.environments.packing.flat_pack import generator as FG
+    for cls in (FG.ToyFlatPackGeneratorWithRotation, FG.ToyFlatPackGeneratorNoRotation):
+        st = cls()(KEY0)
+        R, C = st.grid.shape
+        sol = _exact_cover(np.asarray(st.blocks), R, C)
+        ok = sol is not None and not np.any(np.asarray(st.grid)) and not np.any(np.asarray(st.placed_blocks)) and (R, C) == (5, 5)
+        if cls is FG.ToyFlatPackGeneratorNoRotation:   # advertised: solvable WITHOUT rotating
+            ok = ok and _exact_cover_no_rotation(np.asarray(st.blocks), R, C)
+        ctx.structural(f"FlatPack.{cls.__name__}/C10.block_set_admits_a_complete_solution", bool(ok), "native exhaustive exact-cover search (constant instance)",
+                       detail={"placement(block,rot,row,col)": sol}, witness=None if ok else {"blocks": np.asarray(st.blocks).tolist()}, targets=[cls.__call__])
+    # --- JobShop toy
+    from jumanji.environments.packing.job_shop.generator import ToyGenerator as JT
+    g = JT()
+    st = g(KEY0)
+    m, d, mask = (np.asarray(x) for x in (st.ops_machine_ids, st.ops_durations, st.ops_mask))
+    ok = m.shape == (g.num_jobs, g.max_num_ops) and np.all(~mask | ((m >= 0) & (m < g.num_machines))) and np.all(~mask | ((d >= 1) & (d <= g.max_op_duration))) \
+        and np.all(mask | ((m == -1) & (d == -1))) and np.all(mask[:, 0]) and np.all(~mask[:, 1:] | mask[:, :-1]) and np.array_equal(mask, m != -1) \
+        and np.all(np.asarray(st.machines_job_ids) == g.num_jobs) and np.all(np.asarray(st.scheduled_times) == -1) and int(st.step_count) == 0
+    # advertised optimal makespan 8: lower bound = busiest machine / longest job
+    load = max(int(d[(m == k) & mask].sum()) for k in range(g.num_machines))
+    ctx.structural("JobShop.ToyGenerator/C10.instance_well_formed", bool(ok), nat, detail={"busiest_machine_load": load, "longest_job": int((d * mask).sum(axis=1).max())}, targets=[JT.__call__])
+    # --- BinPack toy
+    from jumanji.environments.packing.bin_pack.generator import ToyGenerator as BT
+    res = _binpack_instance_ok(BT(), KEY0)
+    ctx.structural("BinPack.ToyGenerator/C10.items_exactly_fill_the_container_and_generate_solution_is_feasible", all(res.values()), nat, detail=res,
+                   witness=None if all(res.values()) else res, targets=[BT._generate_solved_instance, BT.generate_solution, BT.__call__])
+    # --- Maze toy
+    from jumanji.environments.routing.maze.generator import ToyGenerator as MT
+    st = MT()(KEY0)
+    free = ~np.asarray(st.walls)
+    a, t = (int(st.agent_position.row), int(st.agent_position.col)), (int(st.target_position.row), int(st.target_position.col))
+    ok = free[a] and free[t] and a != t and np.array_equal(_flood(free, *a), free)
+    ctx.structural("Maze.ToyGenerator/C10.maze_fully_connected_start_and_target_free", bool(ok), "native flood fill (constant instance)", targets=[MT.__call__])
+    # --- Sokoban toy levels (both levels of ToyGenerator, SimpleSolveGenerator)
+    from jumanji.environments.routing.sokoban import generator as SK
+    seen = {}
+    for k in range(32):
+        st = SK.ToyGenerator()(jax.random.PRNGKey(k))
+        seen.setdefault(np.asarray(st.fixed_grid).tobytes(), st)
+    levels = [("ToyGenerator.level%d" % i, st) for i, st in enumerate(seen.values())] + [("SimpleSolveGenerator", SK.SimpleSolveGenerator()(KEY0))]
+    for nm, st in levels:
+        fx, vr = np.asarray(st.fixed_grid), np.asarray(st.variable_grid)
+        ag = np.argwhere(vr == 3)
+        ok = fx.shape == (10, 10) and len(ag) == 1 and tuple(ag[0]) == tuple(int(v) for v in np.asarray(st.agent_location)) and int((vr == 4).sum()) == 4 \
+            and int((fx == 2).sum()) == 4 and not np.any((fx == 1) & (vr != 0)) and int(st.step_count) == 0 and np.all(fx[0] == 1) and np.all(fx[:, 0] == 1)
+        ctx.structural(f"Sokoban.{nm}/C10.one_agent_four_boxes_four_targets_none_on_a_wall", bool(ok), nat, targets=[SK.convert_level_to_array, SK.Generator.get_agent_coordinates])
+    ctx.structural("Sokoban.ToyGenerator/C10.generator_depends_on_the_key", len(seen) == 2, "native witness (both levels are produced)", detail={"levels_seen": len(seen)},
+                   witness=None if len(seen) == 2 else {"levels_seen": len(seen)}, targets=[SK.ToyGenerator.__call__])
+    # --- PacMan ascii maze
+    from jumanji.environments import PacMan
+    env = PacMan()
+    st = env.generator(KEY0)
+    grid = np.asarray(st.grid)
+    H, W = grid.shape
+    on_free = lambda col, row: 0 <= row < H and 0 <= col < W and grid[row, col] == 1
+    pel, pw, gh = np.asarray(st.pellet_locations), np.asarray(st.power_up_locations), np.asarray(st.ghost_locations)
+    ok = on_free(int(st.player_locations.y), int(st.player_locations.x)) and all(on_free(c, r) for c, r in pel) and all(on_free(c, r) for c, r in pw) \
+        and all(on_free(c, r) for c, r in gh) and len(gh) == 4 and int(st.pellets) == len(pel) == len({tuple(p) for p in pel.tolist()}) and int(st.step_count) == 0 \
+        and all(len(row) == W for row in env.generator.maze)
+    ctx.structural("PacMan.AsciiGenerator[DEFAULT_MAZE]/C10.player_ghosts_pellets_powerups_on_free_cells_inside_the_maze", bool(ok), nat, targets=[type(env.generator).__init__, type(env.generator).__call__])
+
+
+def _exact_cover_no_rotation(blocks, R, C):
+    blocks = [np.asarray(b) != 0 for b in blocks]
+
+    def rec(i, covered):
+        if i == len(blocks):
+            return len(covered) == R * C
+        for oy in range(R - 2):
+            for ox in range(C - 2):
+                cells = frozenset((oy + a) * C + ox + c for a in range(3) for c in range(3) if blocks[i][a, c])
+                if not (covered & cells) and rec(i + 1, covered | cells):
+                    return True
+        return False
+
+    return rec(0, frozenset())
+
+
+def run_binpack_bounded(ctx, cfgs, nkeys):
+    from jumanji.environments.packing.bin_pack.generator import RandomGenerator as BG
+    for (ni, ne, same) in cfgs:
+        gen = BG(max_num_items=ni, max_num_ems=ne, split_num_same_items=same)
+        both = jax.jit(lambda k: (gen(k), gen.generate_solution(k)))
+
+        class _G:  # the two real calls, jitted together
+            def __call__(self, k):
+                return both(k)[0]
+
+            def generate_solution(self, k):
+                return both(k)[1]
+
+        bad = []
+        for k in range(nkeys):
+            res = _binpack_instance_ok(_G(), jax.random.PRNGKey(k))
+            if not all(res.values()):
+                bad.append({"key": f"PRNGKey({k})", **res})
+        ctx.bounded_check(f"BinPack.RandomGenerator[items{ni},ems{ne},same{same}]/C10.items_exactly_partition_the_container_and_generate_solution_is_feasible", nkeys, len(bad),
+                          f"native run on PRNGKey(0..{nkeys - 1})", bad[0] if bad else None)
+        _not_constant(ctx, f"BinPack.RandomGenerator[items{ni},ems{ne},same{same}]", lambda k: both(k)[0], lambda s: (s.items.x_len, s.items.y_len, s.items.z_len)[0], [BG.__call__], keys=8)
+
+
+# ======================================================================================================================
+# 5. Connector RandomWalkGenerator (the property's clause is EXPECTED TO FAIL on the pinned tree: DESIGN section 8 #11)
+# ======================================================================================================================
+def _connector_wellformed(G, A, start, target, grid):
+    """numpy: every agent has one head and one target inside the grid, all pairwise distinct, and the grid shows exactly those"""
+    cells = [tuple(int(v) for v in p) for p in list(start) + list(target)]
+    inside = all(0 <= r < G and 0 <= c < G for r, c in cells)
+    distinct = len(set(cells)) == 2 * A
+    shown = all(int((grid == 2 + 3 * a).sum()) == 1 and int((grid == 3 + 3 * a).sum()) == 1 for a in range(A)) and int((grid != 0).sum()) == 2 * A
+    at = inside and all(grid[tuple(start[a])] == 2 + 3 * a and grid[tuple(target[a])] == 3 + 3 * a for a in range(A))
+    return inside and distinct and shown and at
+
+
+def _connector_solved_ok(G, A, start, target, solved):
+    """numpy: the generator's own solved grid is a witness of solvability: the cells of wire a form a 4-connected set containing a's head and target"""
+    for a in range(A):
+        wire = (solved >= 1 + 3 * a) & (solved <= 3 + 3 * a)
+        h, t = tuple(int(v) for v in start[a]), tuple(int(v) for v in target[a])
+        if not (0 <= h[0] < G and 0 <= h[1] < G and 0 <= t[0] < G and 0 <= t[1] < G and wire[h] and wire[t]):
+            return False
+        if not np.array_equal(_flood(wire, *h), wire):
+            return False
+    return True
+
+
+def run_connector_randomwalk(ctx, G, A, nkeys, symbolic):
+    from jumanji.environments.routing.connector.generator import RandomWalkGenerator as RW
+    gen = RW(G, A)
+    name = f"Connector.RandomWalkGenerator[{G}x{G}a{A}]"
+    keys = jax.vmap(jax.random.PRNGKey)(jnp.arange(nkeys))
+    solved, agents, grid = jax.jit(jax.vmap(gen.generate_board))(jax.vmap(lambda k: jax.random.split(k)[1])(keys))   # __call__: key, board_key = split(key)
+    st = jax.jit(jax.vmap(gen))(keys)
+    same = np.array_equal(np.asarray(st.grid), np.asarray(grid)) and np.array_equal(np.asarray(st.agents.target), np.asarray(agents.target))
+    ctx.structural(f"{name}/C10.call_returns_the_board_of_generate_board", bool(same), "native comparison on the checked keys", targets=[RW.__call__])
+    start, target, grid, solved = (np.asarray(x) for x in (st.agents.start, st.agents.target, st.grid, solved))
+    bad = [k for k in range(nkeys) if not _connector_wellformed(G, A, start[k], target[k], grid[k])]
+    wit = {"key": f"PRNGKey({bad[0]})", "start": start[bad[0]].tolist(), "target": target[bad[0]].tolist(), "grid": grid[bad[0]].tolist(), "failing_keys": bad[:30],
+           "n_failing": len(bad)} if bad else None
+    ctx.bounded_check(f"{name}/C10.every_agent_has_one_head_and_one_target_inside_the_grid_all_pairwise_distinct", nkeys, len(bad), f"native run on PRNGKey(0..{nkeys - 1})", wit)
+    bad2 = [k for k in range(nkeys) if k not in set(bad) and not _connector_solved_ok(G, A, start[k], target[k], solved[k])]
+    ctx.bounded_check(f"{name}/C10.own_solved_grid_connects_every_head_to_its_target_with_disjoint_wires", nkeys - len(bad), len(bad2),
+                      f"native run on the well-formed boards among PRNGKey(0..{nkeys - 1})", {"key": f"PRNGKey({bad2[0]})", "solved": solved[bad2[0]].tolist()} if bad2 else None)
+    _not_constant(ctx, name, gen, lambda s: s.grid, [RW.__call__], keys=8)
+    if not symbolic:
+        return
+    # symbolic, all sampler outcomes: the placement of heads and first moves (scan of `_initialize_starts_and_first_move`, unrolled)
+    grid0 = jnp.zeros((G, G), jnp.int32)
+
+    def ens(key):
+        g2, ag = gen._initialize_agents(key, grid0)
+        st_, fm = ag.start, ag.position          # head cell and first-move cell (the walk's current end, i.e. the future target)
+        flat = jnp.concatenate([st_[:, 0] * G + st_[:, 1], fm[:, 0] * G + fm[:, 1]])
+        return {"C10.heads_inside_grid": (st_ >= 0) & (st_ < G),
+                "C10.first_moves_inside_grid": (fm >= 0) & (fm < G),
+                "C10.heads_and_first_moves_pairwise_distinct": _pairwise_distinct(flat),
+                "canary.first_head_at_origin": (st_[0, 0] == 0) & (st_[0, 1] == 0)}
+
+    ctx.prove(name + "._initialize_agents", (KEY0,), ens, targets=[RW._initialize_agents, RW._initialize_starts_and_first_move, RW._available_cells, RW._adjacent_cells], merge_over=64)
 
 
 # ======================================================================================================================
@@ -680,6 +1024,14 @@ def tasks(tier):
     # ---- 4. FlatPack tiling; finite generators
     for (nr, nc) in (((1, 2), (2, 2)) if q else ((1, 1), (1, 2), (2, 1), (2, 2), (2, 3))):
         out[f"FlatPack.RandomFlatPackGenerator[{nr}x{nc}]"] = (run_flatpack, {"nr": nr, "nc": nc})
+    out["FlatPack.RandomFlatPackGenerator[bounded]"] = (run_flatpack_bounded, {"sizes": ((2, 2), (2, 3)) if q else ((1, 3), (2, 2), (2, 3), (3, 3)), "nkeys": 40 if q else 200})
+    out["Sudoku.generators"] = (run_sudoku, {})
+    out["toy_and_fixed_generators"] = (run_toys, {})
+    out["BinPack.RandomGenerator[bounded]"] = (run_binpack_bounded, {"cfgs": ((2, 3, 1), (6, 10, 2), (20, 80, 5)) if q else ((2, 3, 1), (3, 4, 1), (6, 10, 2), (20, 80, 5), (40, 100, 5)),
+                                                                      "nkeys": 50 if q else 300})
+    # ---- 5. Connector random walk
+    for (G, A, n, sym) in (((3, 4, 300, True), (4, 6, 300, False), (10, 10, 600, False)) if q else ((3, 4, 1000, True), (4, 6, 1000, True), (10, 10, 2000, False), (6, 3, 1000, False))):
+        out[f"Connector.RandomWalkGenerator[{G}x{G}a{A}]"] = (run_connector_randomwalk, {"G": G, "A": A, "nkeys": n, "symbolic": sym})
     return out
 
 
